@@ -1,1 +1,85 @@
-(* C08 *)
+(* C08 — I/O failures are never swallowed: the part that is logic.
+   (1) output bit stream model, for EVERY fault function of the sink (which Write calls it rejects),
+       every buffer size and every program of WriteBit/WriteBits: a call during which the sink rejected
+       a write reports the error; if every call and the final Close reported success, the sink holds
+       the complete byte image of the written bits (so Close never reports success for a stream
+       whose bytes did not all reach the sink);
+   (2) Writer model, for EVERY set of failing encoding tasks (a task fails when its write to the shared
+       stream fails), failing end marker and failing final flush, every Write partition, job count
+       and hint: if every Write returned its full length without error and Close returned nil, then
+       every block of the data was written once, in order; hence a failing task of any block of the
+       data makes some Write or the Close return the error;
+   (3) Reader model: a block whose task met an error (source failure, damaged data) or the physical
+       end of the source never becomes a clean end-of-stream, for any jobs / Read lengths.
+   Panics: the Go code converts bit stream panics into errors with deferred recovers; that every
+   entry point has one is checked structurally (C03) and by fault injection at every call index. *)
+From Coq Require Import List NArith ZArith Lia.
+From KV Require Import Model.OutBS Proofs.OutBSProofs Model.Writer Model.Reader Proofs.WriterProofs
+  Proofs.ReaderProofs Proofs.ReaderGen Proofs.FaultProofs.
+Import ListNotations.
+Open Scope N_scope.
+
+Theorem C08_sink_faults_never_swallowed : forall (fail : N -> bool) bufsize ops s1 s2,
+  16 <= bufsize -> Forall wop_ok ops ->
+  run_wops_f fail (new_obs bufsize) ops = (s1, false) -> close fail s1 = (s2, false) ->
+  exists pad V L, (V, L) = fold_left bv_app ops (0, 0) /\
+    o_closed s2 = true /\ pad < 8 /\
+    8 * N.of_nat (length (o_out s2)) = L + pad /\
+    be_val (o_out s2) = V * 2 ^ pad /\
+    written s2 = Z.of_N L.
+Proof. exact sink_faults_never_swallowed. Qed.
+Print Assumptions C08_sink_faults_never_swallowed.
+
+Theorem C08_rejected_write_is_reported : forall (fail : N -> bool) s s' e,
+  (forall b, write_bit fail s b = (s', e) -> rejected fail s s' -> e = true) /\
+  (forall v c, write_bits fail s v c = (s', e) -> rejected fail s s' -> e = true) /\
+  (close fail s = (s', e) -> rejected fail s s' -> e = true).
+Proof.
+  intros fail s s' e. split; [|split].
+  - intros b. apply write_bit_reports.
+  - intros v c. apply write_bits_reports.
+  - apply close_reports.
+Qed.
+Print Assumptions C08_rejected_write_is_reported.
+
+Theorem C08_writer_success_means_complete : forall B jobs hint (fails : N -> bool) ws mf ff s1 s2,
+  0 < B -> 0 < jobs ->
+  do_writes_f B jobs hint fails (init_w jobs) ws = (s1, true) -> w_close B jobs hint fails s1 mf ff = (s2, false) ->
+  w_closed s2 = true /\
+  map snd (w_out s2) = chunks B (concat ws) /\
+  map fst (w_out s2) = map (fun i => 1 + N.of_nat i) (seq 0 (length (w_out s2))).
+Proof. intros B jobs hint fails ws mf ff s1 s2 HB HJ. apply writer_success_means_complete; assumption. Qed.
+Print Assumptions C08_writer_success_means_complete.
+
+Theorem C08_task_failure_reported : forall B jobs hint (fails : N -> bool) ws mf ff s1 s2 r e id,
+  0 < B -> 0 < jobs ->
+  do_writes_f B jobs hint fails (init_w jobs) ws = (s1, r) -> w_close B jobs hint fails s1 mf ff = (s2, e) ->
+  fails id = true -> 1 <= id <= N.of_nat (length (chunks B (concat ws))) ->
+  r = false \/ e = true.
+Proof. intros B jobs hint fails ws mf ff s1 s2 r e id HB HJ. apply task_failure_reported; assumption. Qed.
+Print Assumptions C08_task_failure_reported.
+
+Theorem C08_read_error_never_clean_eof : forall B jobs hint data dfr cut ns, 0 < B -> 0 < jobs ->
+  dmg dfr (chunks B data) ->
+  ~ In REOF (map snd (fst (do_reads_g B jobs hint 0 0 (init_r (firstn cut dfr)) ns))) /\
+  (~ clean B 0 0 0 dfr -> forall rest,
+     ~ In REOF (map snd (fst (do_reads_g B jobs hint 0 0 (init_r (dfr ++ FEnd :: rest)) ns)))).
+Proof.
+  intros B jobs hint data dfr cut ns HB HJ Hd. split.
+  - destruct (reader_truncated B jobs hint 0 0 HB HJ data dfr cut ns Hd) as (k & _ & Hr). rewrite Hr.
+    apply (spec_reads_g_never_eof B jobs HB HJ).
+  - intros Hn rest. destruct (reader_damaged B jobs hint 0 0 HB HJ data dfr rest ns Hd Hn) as (pre & q & k & _ & _ & _ & _ & Hr).
+    rewrite Hr. apply (spec_reads_g_never_eof B jobs HB HJ).
+Qed.
+Print Assumptions C08_read_error_never_clean_eof.
+
+(* a failing run exists and is reported: the sink rejects its first Write call *)
+Example C08_instance_bitstream :
+  snd (run_wops_f (fun k => k =? 1) (new_obs 16) [WBits 1 64; WBits 2 64]) = true /\
+  snd (run_wops_f (fun k => k =? 3) (new_obs 16) [WBits 1 64; WBits 2 64]) = false.
+Proof. vm_compute. split; reflexivity. Qed.
+
+Example C08_instance_writer :
+  let '(s1, r) := do_writes_f 4 2 0 (fun id => id =? 2) (init_w 2) [[1;2;3;4;5]; [6;7;8;9;10;11]] in
+  r = false \/ snd (w_close 4 2 0 (fun id => id =? 2) s1 false false) = true.
+Proof. vm_compute. left. reflexivity. Qed.
